@@ -58,12 +58,13 @@ TRAILING = ["none", "nl", "nl_indent"]
 STYLES = ["rest", "google", "numpydoc"]
 
 
-def build(hk, style, fk, indent, leading, sep, trailing, variant="full"):
+def build(hk, style, fk, indent, leading, sep, trailing, variant="full", blanks="empty"):
     header = dict(HEADERS)[hk]
     footer = dict(FOOTERS)[fk]
     lines = list(header) + [""] * (sep - 1) + section_lines(style, variant) + footer
     ind = " " * indent
-    text = "\n".join((ind + l) if l else l for l in lines)
+    # blank lines inside an indented docstring are either empty or carry the indentation (what editors and the emitters' separating tab leave)
+    text = "\n".join((ind + l) if (l or blanks == "indented") else l for l in lines)
     if leading == "blanks":
         text = "   \n" + text  # trailing blanks after the opening quotes: a first line that is whitespace-only, not empty
     elif leading:
@@ -78,6 +79,8 @@ def build(hk, style, fk, indent, leading, sep, trailing, variant="full"):
 def space(indents=INDENTS, separators=SEPARATORS):
     for variant, hk, style, fk, indent, leading, sep, trailing in itertools.product(SECTION_VARIANTS, [h[0] for h in HEADERS], STYLES, [f[0] for f in FOOTERS], indents, leading_values(), separators, TRAILING):
         yield dict(hk=hk, style=style, fk=fk, indent=indent, leading=leading, sep=sep, trailing=trailing, variant=variant)
+        if indent and (fk != "none" or hk in ("two", "block_first")) and trailing == "none" and leading is not False:
+            yield dict(hk=hk, style=style, fk=fk, indent=indent, leading=leading, sep=sep, trailing=trailing, variant=variant, blanks="indented")
 
 
 def leading_values():
@@ -148,8 +151,10 @@ def run(case):
     import cdd.shared.docstring_utils
     from cdd.shared.source_transformer import to_code
 
-    doc = build(case["hk"], case["style"], case["fk"], case["indent"], case["leading"], case["sep"], case["trailing"], case.get("variant", "full"))
+    doc = build(case["hk"], case["style"], case["fk"], case["indent"], case["leading"], case["sep"], case["trailing"], case.get("variant", "full"), case.get("blanks", "empty"))
     ctx = dict(check="prose", style=case["style"], indent=case["indent"], header=case["hk"], footer=case["fk"], section=case.get("variant", "full"))
+    if case.get("blanks"):
+        ctx["blank_lines"] = case["blanks"]
     viol, transitions = [], 0
 
     def v(clause, expected, observed, **extra):
@@ -255,7 +260,7 @@ def describe(tier):
     n = sum(1 for _ in space())
     return dict(
         rule="{n} docstrings = 3 headers (one line / two paragraphs / paragraph + bullet list) x 3 styles of a generated 2-parameter + return section x 4 footers "
-        "(none, notes, doctest, indented example) x indentation 0/4/8 x leading newline (none, empty first line, whitespace-only first line) x separator (1 or 2 newlines) x 3 trailing-whitespace kinds; "
+        "(none, notes, doctest, indented example) x indentation 0/4/8 x leading newline (none, empty first line, whitespace-only first line) x separator (1 or 2 newlines) x 3 trailing-whitespace kinds, and - for indented docstrings with a footer or a multi-paragraph header - blank lines that carry the indentation; "
         "each through the splitter, and through parse -> emit into each of the 3 target styles (docstring and, at indentation 4, function route); "
         "a case = one docstring".format(n=n),
         bounds=dict(headers=[h[0] for h in HEADERS], footers=[f[0] for f in FOOTERS], indents=INDENTS, separators=SEPARATORS, trailing=TRAILING),
